@@ -25,10 +25,36 @@ func thoroughExtras(ld *Loaded, id string, verbose bool) thoroughResult {
 
 // staticScans: "field T.f immutable <ctor>[,<ctor>]" - every store to the field lies in
 // one of the named constructor functions (or their anonymous functions).
+// planFuncs: keys of the functions in the current property's plan (set by the check driver): a
+// static clause about one of these functions, or about the receiver type of one of them, belongs to
+// the property as well, whatever its own tags say.
+var planFuncs map[string]bool
+
+func (ld *Loaded) inPlan(fd *FieldDecl) bool {
+	if len(planFuncs) == 0 {
+		return false
+	}
+	switch fd.Kind {
+	case "nouse", "order", "cellfresh", "lockwrapper":
+		return planFuncs[qualifyFuncName(fd.Type, fd.Pkg)]
+	case "promoted", "closure":
+		return false
+	}
+	// field / method-set clauses of type T: some method of T (or *T) is in the plan
+	p1 := "(*" + fd.Pkg + "." + fd.Type + ")."
+	p2 := "(" + fd.Pkg + "." + fd.Type + ")."
+	for k := range planFuncs {
+		if strings.HasPrefix(k, p1) || strings.HasPrefix(k, p2) {
+			return true
+		}
+	}
+	return false
+}
+
 func (ld *Loaded) staticScans(id string) []*FuncResult {
 	var out []*FuncResult
 	for _, fd := range ld.cs.Fields {
-		has := false
+		has := ld.inPlan(fd)
 		for _, p := range fd.Props {
 			if p == id {
 				has = true
